@@ -172,10 +172,11 @@ def run_property(prop: str, repo_root: str, tier: str, only_key: str | None = No
         "wall_s": round(time.time() - t0, 3),
         "violations": len(violations),
     }
-    tmp = evidence_path + ".tmp"
-    with open(tmp, "w", encoding="utf-8") as fh:
-        json.dump(ev, fh, indent=1, default=str)
-    os.replace(tmp, evidence_path)
+    if only_key is None:  # a replay re-derives one finding; it does not replace the property's evidence
+        tmp = evidence_path + ".tmp"
+        with open(tmp, "w", encoding="utf-8") as fh:
+            json.dump(ev, fh, indent=1, default=str)
+        os.replace(tmp, evidence_path)
     print(f"== {prop}: {n_ob} obligations, {coverage['discharged']} discharged, {len(seen_known)} known finding(s), {len(violations)} violation(s); {st['modules']} modules / {st['functions']} functions analysed; {ev['wall_s']} s")
     if selftest is not None and selftest.get("anomalies"):
         for a in selftest["anomalies"]:
